@@ -5,7 +5,7 @@ import Operon.Model.CascadeObs
 
   The translator executes the SOURCE of `Cascade.run` symbolically (helpers inlined, every path of one loop iteration
   explored, callbacks as the branching points) and emits three definitions into `Gen/CascadeTranslated.lean`:
-    `init x`                  — the loop-carried state before the first stage,
+    `init cfg x`              — the loop-carried state before the first stage,
     `body cfg obs i s a`      — one iteration of `for i, stage in enumerate(self._stages)` as a decision tree,
     `finish cobs n r`         — everything after the loop (result record, `on_cascade_complete`).
   `none` marks a path the translator could not follow (fail closed).  `runTr` folds such pieces over a stage list exactly as
@@ -49,7 +49,7 @@ def finishC {σ : Type} (cobs : Option CascObs) (n : Nat) (r : Run σ) : Out (Re
 /-- `run` with both observers: what the call returns (or that it raises) and the stages shown to `on_stage_complete` -/
 def resultC {σ : Type} (cfg : Cfg) (obs : Option StageObs) (cobs : Option CascObs) (stages : List (Stage σ)) (x : σ) :
     Out (Result σ) × List Nat :=
-  let r := runFromO cfg obs 0 stages ⟨x, 1, none⟩
+  let r := runFromO cfg obs 0 stages ⟨x, clamp cfg 1, none⟩
   (finishC cobs stages.length r.1, r.2)
 
 /-- a Python `for` loop with `break`: fold a translated body over the stages -/
